@@ -59,6 +59,24 @@ class Verified:
         g += match_gates(self.prog, body, self.is_verifying_origin, "Ok")
         return g
 
+    OK_PRESERVING = re.compile(r"(Result::<T, E>::(map_err|inspect_err|inspect|map)|IoErrorExt::with_context)$")
+
+    def _delegates(self, o, depth=0):
+        """The returned value is the verdict of a verification primitive / VERIFIED function, possibly passed through
+        combinators that cannot turn a failure into a success (`result().map_err(Into::into)`)."""
+        prog = self.prog
+        if o.kind != "call" or o.callee is None or o.path not in AWAIT_PATHS:
+            return False
+        if o.callee.path in VERIFY_PRIMS:
+            return True
+        g = prog.callee_fn(o.term)
+        if g is not None and not o.callee.path.endswith("Future::poll") and self.verified(g):
+            return True
+        if depth < 3 and self.OK_PRESERVING.search(o.callee.path) and o.term is not None and o.term.args:
+            src = prog.resolve_op(o.body, o.term.args[0], IDENT, o.blk)
+            return bool(src) and all(self._delegates(x, depth + 1) for x in src)
+        return False
+
     def _compute(self, lf):
         prog = self.prog
         body = lf.body
@@ -70,12 +88,8 @@ class Verified:
                 continue
             if rd.cls == "delegated":
                 o = rd.origin
-                if o is not None and o.path in AWAIT_PATHS and o.callee is not None:
-                    if o.callee.path in VERIFY_PRIMS:
-                        continue
-                    g = prog.callee_fn(o.term)
-                    if g is not None and self.verified(g):
-                        continue
+                if o is not None and self._delegates(o):
+                    continue
             obligations.append(rd)
         bad = unreachable_without(prog, body, gates, [rd.blk for rd in obligations])
         badset = {b for b, _ in bad}
@@ -292,6 +306,24 @@ def check_no_failure_after_insert(cfg, w, rep, tag):
                               loc=blk_loc(body, bad.blk), config=cfg, rule="%s/insert-is-last" % tag)
             else:
                 rep.ob(cfg, "%s/insert-is-last" % tag, "%s@%d" % (key, blk.i), "after the index insertion `%s` fails only with the insertion's own error" % short(lf.path))
+
+
+def check_insert_writes_all_or_error(cfg, w, rep, tag, why):
+    """Every data write of an INDEX_INSERT on its bucket is an all-or-error write (`write_all`, `write!`): a plain `write` may
+    accept only a prefix of the record and still report success — the insert (a commit, a removal) would return Ok with a torn
+    record that every reader skips."""
+    prog = w.prog
+    for p in w.roles.index_inserts:
+        lf = prog.fns[p]
+        writes, others = bucket_data_writes(w, lf)
+        for e in writes:
+            if e.flags.get("op") not in ALL_OR_ERROR_WRITES:
+                rep.violation("%s-partial-append:%s" % (tag, fn_key(lf)),
+                              "index insert `%s` appends its record with `%s`, which may accept only part of it and still report success: %s" % (
+                                  short(lf.path), e.flags.get("op"), why), loc=e.loc(), config=cfg, rule="%s/all-or-error-append" % tag)
+            else:
+                rep.ob(cfg, "%s/all-or-error-append" % tag, "%s:%s" % (fn_key(lf), e.flags.get("op")),
+                       "`%s` appends with the all-or-error `%s`" % (short(lf.path), e.flags.get("op")))
 
 
 REMOVAL_ENTRY = re.compile(r"^(rm::(remove_hash|remove_hash_sync|clear|clear_sync)|index::RemoveOpts::remove(_sync)?)$")
